@@ -161,3 +161,14 @@ From Trans Require EquivDecode.
 Theorem C03_header_decode_is_model : Trans.Spec.T_header_decode.
 Proof. exact Trans.EquivDecode.header_decode_equiv. Qed.
 Print Assumptions C03_header_decode_is_model.
+
+(* header.encode (with msglen, Type, Valid) and header.SetRemainingLength, as the source has them now, equal the model's
+   hdr_encode / set_remlen: never a panic, the destination untouched on every refusal, otherwise the type/flags byte and the
+   minimal encoding of the remaining length *)
+From Trans Require EquivEncode.
+Theorem C03_header_encode_is_model : Trans.Spec.T_header_encode.
+Proof. exact Trans.EquivEncode.header_encode_equiv. Qed.
+Print Assumptions C03_header_encode_is_model.
+Theorem C03_SetRemainingLength_is_model : Trans.Spec.T_SetRemainingLength.
+Proof. exact Trans.EquivEncode.setRemainingLength_equiv. Qed.
+Print Assumptions C03_SetRemainingLength_is_model.
